@@ -648,6 +648,12 @@ func (fc *FnCtx) exec(in ssa.Instruction) {
 				fc.ghost[st.name] = "true"
 			}
 		}
+		if h, ok := fc.ghost["handedobj"]; ok {
+			if _, isPtr := x.X.Type().Underlying().(*types.Pointer); isPtr {
+				fc.ghost = cloneMap(fc.ghost)
+				fc.ghost["handedobj"] = store(h, fc.valOf(x.X).T, "true")
+			}
+		}
 	case *ssa.Go:
 		fc.execGo(x)
 	case *ssa.Defer:
@@ -1072,6 +1078,15 @@ func (fc *FnCtx) execNext(x *ssa.Next) {
 		}
 	}
 	fc.vals[x] = res
+	// anchor `at next(<range expression text>) after g := ...`: ret0 is the "another element" flag
+	fc.hookAnchorAfter("next", fc.nextText(x), x, nil, res, nil)
+}
+
+func (fc *FnCtx) nextText(x *ssa.Next) string {
+	if rng, ok := x.Iter.(*ssa.Range); ok {
+		return fc.srcText(rng.Pos())
+	}
+	return fc.srcText(x.Pos())
 }
 
 func (fc *FnCtx) execSelect(x *ssa.Select) {
@@ -1091,6 +1106,18 @@ func (fc *FnCtx) execSelect(x *ssa.Select) {
 		res.Fields = append(res.Fields, v)
 	}
 	fc.vals[x] = res
+	if h, ok := fc.ghost["handedobj"]; ok {
+		for k, st := range x.States {
+			if st.Dir != types.SendOnly {
+				continue
+			}
+			if _, isPtr := st.Send.Type().Underlying().(*types.Pointer); isPtr {
+				h = ite(eq(idx.T, num(int64(k))), store(h, fc.valOf(st.Send).T, "true"), h)
+			}
+		}
+		fc.ghost = cloneMap(fc.ghost)
+		fc.ghost["handedobj"] = h
+	}
 	fc.hookAnchorAfter("select", fc.srcText(x.Pos()), x, nil, res, nil)
 }
 
